@@ -96,9 +96,13 @@ def rand_gene(rng, strand=None):
     return out
 
 
+SHORT_TERMINAL = [1, 2, 3, 4, 5, 6, 9]
+
+
 def rand_read(rng, models, noise=True):
     """-> (exon blocks, polya_info 4-tuple) of a read derived from one isoform (truncation; with `noise`: skipped
-    exon, shifted site, extended ends), or None.  Terminal blocks are kept >= 12 bp."""
+    exon, shifted site, extended ends), or None.  Terminal blocks are >= 12 bp, or (one read in four) a terminal block
+    keeps only 1..9 bases next to its splice site."""
     tid, gid, strand, ex = rng.choice(models)
     ex = list(ex)
     if len(ex) > 2 and rng.random() < 0.5:
@@ -121,9 +125,20 @@ def rand_read(rng, models, noise=True):
     # code is supposed to treat both ends alike there, so a one-sided `<` / `<=` slip shows up
     dl = rng.choice([-301, -300, -200, -60, -51, -50, -20, -7, -6, 0, 6, 7, 10, 15] if noise else [0, 3, 6, 10, 15])
     dr = rng.choice([301, 300, 200, 60, 51, 50, 20, 7, 6, 0, -6, -7, -10, -15] if noise else [0, -3, -6, -10, -15])
-    ex[0] = (ex[0][0] + dl, ex[0][1])
-    ex[-1] = (ex[-1][0], ex[-1][1] + dr)
-    if ex[0][0] + 11 > ex[0][1] or ex[-1][0] + 11 > ex[-1][1] or ex[0][0] < 1:
+    # a read truncated inside a terminal exon keeps only a few bases of it (noise-free: a 3' / 5' truncated molecule);
+    # blocks shorter than minimal_exon_overlap (5) that end at the splice site are the `EndTie` class of the pre-fix
+    # overlaps_at_least_when_overlap (audit2-C G7)
+    short = rng.choice(["", "", "", "", "", "", "first", "last"]) if len(ex) > 1 else ""
+    if short == "first":
+        ex[0] = (ex[0][1] - rng.choice(SHORT_TERMINAL) + 1, ex[0][1])
+        ex[-1] = (ex[-1][0], ex[-1][1] + dr)
+    elif short == "last":
+        ex[0] = (ex[0][0] + dl, ex[0][1])
+        ex[-1] = (ex[-1][0], ex[-1][0] + rng.choice(SHORT_TERMINAL) - 1)
+    else:
+        ex[0] = (ex[0][0] + dl, ex[0][1])
+        ex[-1] = (ex[-1][0], ex[-1][1] + dr)
+    if (short != "first" and ex[0][0] + 11 > ex[0][1]) or (short != "last" and ex[-1][0] + 11 > ex[-1][1]) or ex[0][0] < 1:
         return None
     # polyA info as the finder would report it: position of the last aligned base (polyA) / of the base before the
     # first aligned one (polyT); here given directly, so both are plain positions
@@ -141,6 +156,10 @@ def rand_read(rng, models, noise=True):
         pa = ex[-1][1] + rng.choice([50, 51, 49, 6, 7])
     elif r < 0.8:
         pt = ex[0][0] - rng.choice([50, 51, 49, 6, 7])
+    if short == "last":          # the truncated end carries no tail
+        pa = ipa = -1
+    elif short == "first":
+        pt = ipt = -1
     return ex, (pa, pt, ipa, ipt)
 
 
@@ -296,6 +315,88 @@ def add_special_loci(ds, rng, chrom="chrS", length=40000, clusters=True):
     return ds
 
 
+def add_end_tie_locus(ds, chrom="chrE", length=9000):
+    """an annotated chromosome with one '+' gene whose two isoforms differ by 4 bp at one acceptor site (within delta), and
+    NOISE-FREE reads of the second isoform truncated inside a terminal exon so that the terminal block keeps only 2 / 4
+    bases next to its splice site: `last_short_*` (3' truncated) and `first_short_*` (5' truncated).  The split-exon
+    profile is what tells the isoforms apart; the short block lies inside a split exon and shares exactly one end with
+    it -- the class on which overlaps_at_least_when_overlap was not mirror-symmetric (audit2-C G7: `last_short` unique,
+    its mirror image ambiguous; transcript_counts 3.00 vs 0.00)."""
+    ds.chroms[chrom] = "".join(ds.rng.choice("ACGT") for _ in range(length))
+    t0 = [(1003, 1220), (2121, 2305), (3002, 3225)]
+    t1 = [(1003, 1220), (2125, 2305), (3002, 3225)]
+    ds.add_gene(chrom, "GE", "+", [("E_t0", t0), ("E_t1", t1)])
+    for n in (2, 4):
+        for i in range(3):
+            ds.read_from_exons("last_short_%d_%d" % (n, i), chrom, [t1[0], t1[1], (t1[2][0], t1[2][0] + n - 1)])
+            ds.read_from_exons("first_short_%d_%d" % (n, i), chrom, [(t1[0][1] - n + 1, t1[0][1]), t1[1], t1[2]])
+    return ds
+
+
+def mono_antisense_dataset(seed=3, n_plus=3, n_minus=9):
+    """audit2-C G2: two overlapping UN-annotated mono-exonic transcripts on opposite strands, noise-free tailed reads:
+    `n_plus` '+' reads 5000-5600 (polyA tail) and `n_minus` '-' reads 5100-5750 (polyT head); with
+    --report_novel_unspliced true the better supported one must be reported in both orientations (pre-fix: the polyA
+    one, whatever the support).  A spliced annotated gene elsewhere keeps the annotation non-empty."""
+    ds = synth.Dataset(seed)
+    ds.add_chrom("chr1", 20000)
+    for i in range(n_plus):
+        ds.read_from_exons("plus_%d" % i, "chr1", [(5000, 5600)], flag=0, polya=30)
+    for i in range(n_minus):
+        ds.read_from_exons("minus_%d" % i, "chr1", [(5100, 5750)], flag=16, polyt=30)
+    for p in (5598, 5097):            # clean tails: non-A/T flanks
+        _put(ds, "chr1", p, "GCGCG")
+    ds.add_gene("chr1", "G1", "+", [("T1", [(12000, 12300), (13000, 13300)])])
+    for i in range(3):
+        ds.read_from_exons("g_%d" % i, "chr1", [(12000, 12300), (13000, 13300)], polya=20)
+    return ds
+
+
+def toy_dataset(repo, max_reads=None):
+    """the repo's own toy data (tests/simple_data: real simulated ONT alignments of a 4-Mb piece of mouse chr9 -- noisy
+    CIGARs with I / D / S, A-rich read ends, cut read clusters) as a synth.Dataset: the GTF reduced to its
+    gene / transcript / exon records, BAM tags dropped, the sequence upper-cased"""
+    import gzip
+    import os
+    import pysam
+    toy = os.path.join(repo, "tests", "simple_data")
+    ds = synth.Dataset(1)
+    name, buf = None, []
+    with gzip.open(os.path.join(toy, "chr9.4M.fa.gz"), "rt") as f:
+        for l in f:
+            if l.startswith(">"):
+                name = l[1:].split()[0]
+            else:
+                buf.append(l.strip().upper())
+    ds.chroms[name] = "".join(buf)
+    genes = {}
+    with gzip.open(os.path.join(toy, "chr9.4M.gtf.gz"), "rt") as f:
+        for l in f:
+            if l.startswith("#"):
+                continue
+            p = l.rstrip("\n").split("\t")
+            if p[2] != "exon":
+                continue
+            gid = re.search(r'gene_id "([^"]*)"', p[8]).group(1)
+            tid = re.search(r'transcript_id "([^"]*)"', p[8]).group(1)
+            g = genes.setdefault(gid, {"chr": p[0], "gene_id": gid, "strand": p[6], "tx": {}})
+            g["tx"].setdefault(tid, []).append((int(p[3]), int(p[4])))
+    for g in genes.values():
+        ds.genes.append({"chr": g["chr"], "gene_id": g["gene_id"], "strand": g["strand"],
+                         "transcripts": [(t, sorted(e)) for t, e in g["tx"].items()]})
+    n = 0
+    with pysam.AlignmentFile(os.path.join(toy, "chr9.4M.ont.sim.polya.bam")) as bam:
+        for a in bam.fetch(until_eof=True):
+            if a.is_unmapped or a.reference_name not in ds.chroms:
+                continue
+            if max_reads is not None and n >= max_reads:
+                break
+            n += 1
+            ds.add_read(a.query_name, a.reference_name, a.reference_start, a.cigarstring, a.flag, a.mapping_quality, None,
+                        a.query_sequence)
+    return ds
+
+
 def metamorphic_dataset(seed, n_chroms=2, genes_per_chrom=3, reads_per_tx=5, chrom_len=46000, novel=True, special=True):
     """noise-free reads of annotated isoforms (truncated ends, polyA/T tails) plus, with `novel`, reads of an
     unannotated exon-skipping isoform of some genes (enough copies to be reported as a novel model)"""
@@ -366,4 +467,5 @@ def metamorphic_dataset(seed, n_chroms=2, genes_per_chrom=3, reads_per_tx=5, chr
                 ds.read_from_exons("e_%s_%d" % (tid, k), g["chr"], e)
     if special:
         add_special_loci(ds, ds.rng, clusters=(special != "no_clusters"))
+        add_end_tie_locus(ds)
     return ds
